@@ -102,15 +102,14 @@ class Strip(pyast.NodeTransformer):
     return pyast.copy_location(
         pyast.Assign(targets=[n.target], value=n.value), n)
 
+  # Imports are compared separately (every import of the source is still
+  # there; the merge may add the ones its annotations need).
+
   def visit_ImportFrom(self, n):
-    return None if n.module in ("typing", "typing_extensions") else n
+    return None if n.level == 0 and n.module != "__future__" else n
 
   def visit_Import(self, n):
-    names = [a for a in n.names if a.name not in ("typing",)]
-    if not names:
-      return None
-    n.names = names
-    return n
+    return None
 
 
 def strip(src):
@@ -169,7 +168,7 @@ def check_pair(ctx, src, stub, label, feats):
   # the source's own typing imports are code, not annotations: each name it
   # imported is still imported afterwards
   ctx.check(typing_imports(src) <= typing_imports(out),
-            "source-typing-import-removed",
+            "source-import-removed",
             "%s: the source imports %s from typing, the merged text only %s" % (
                 label, sorted(typing_imports(src) - typing_imports(out)),
                 sorted(typing_imports(out))), case)
@@ -200,17 +199,19 @@ def check_pair(ctx, src, stub, label, feats):
 def typing_imports(src):
   out = set()
   for n in pyast.walk(pyast.parse(src)):
-    if isinstance(n, pyast.ImportFrom) and n.module in ("typing",
-                                                       "typing_extensions"):
+    if isinstance(n, pyast.ImportFrom) and n.level == 0:
       out.update((n.module, a.name, a.asname or "") for a in n.names)
     elif isinstance(n, pyast.Import):
-      out.update(("import", a.name, a.asname or "") for a in n.names
-                 if a.name == "typing")
+      out.update(("import", a.name, a.asname or "") for a in n.names)
   return out
 
 
 def norm(a):
-  return a.replace("typing.", "").replace("'", "").replace('"', "")
+  # the merge may spell a name through the import style the source already
+  # uses (os.PathLike / PathLike): compare without module prefixes
+  import re
+  a = a.replace("'", "").replace('"', "")
+  return re.sub(r"\b(?:[A-Za-z_]\w*\.)+([A-Za-z_]\w*)", r"\1", a)
 
 
 def random_stub(draw, src):
@@ -303,9 +304,14 @@ def run_shard(ctx):
       return
     check_pair(ctx, src, r.pyi, "inferred-stub", p["features"])
 
+  canary(ctx, first=True)
+  for src, stub in FIXED:
+    check_pair(ctx, src, stub, "fixed", ["function", "class"])
+    canary(ctx)
   for i, cfg in enumerate(cfgs):
     hyp_run(ctx, gen_py.program(cfg), inferred, 8 if ctx.quick() else 400,
             label="I%d" % i)
+    canary(ctx)
 
   @st.composite
   def with_random_stub(draw):
@@ -324,12 +330,45 @@ def run_shard(ctx):
   hyp_run(ctx, with_random_stub(),
           lambda x: check_pair(ctx, x[0], x[1], "generated-stub", x[2]),
           40 if ctx.quick() else 4000, label="R")
-  if ctx.shard == 0:
-    for src, stub in FIXED:
-      check_pair(ctx, src, stub, "fixed", ["function", "class"])
+  canary(ctx)
 
 
+CANARY = ("def cf(a, b=1):\n  return a\ncx = cf(1)\nclass CK:\n  y = 2\n"
+          "  def m(self, q):\n    return q\n",
+          "from typing import Any\ndef cf(a: int, b: int = ...) -> int: ...\n"
+          "cx: int\nclass CK:\n  y: int\n  def m(self, q: str) -> str: ...\n")
+
+
+def canary(ctx, first=False):
+  """The same small pair merged again and again between the other merges: its
+  output may depend on nothing but its two inputs."""
+  merge_pyi = _mods()
+  out = merge_pyi.merge_sources(py=CANARY[0], pyi=CANARY[1])
+  if first or not hasattr(canary, "out"):
+    canary.out = out
+    return
+  ctx.check(out == canary.out, "merge-depends-on-earlier-merges",
+            "the canary pair merged differently after other merges in the "
+            "same process\n--- first\n%s\n--- now\n%s" % (canary.out, out),
+            {"src": CANARY[0], "stub": CANARY[1], "history": True})
+
+
+TQ = '"' * 3
+TS = "'" * 3
 FIXED = [
+    # stubs that need imports of their own (must not leak into later merges)
+    ("def price(x):\n  return x\ntotal = price(1)\n",
+     "from decimal import Decimal\nfrom fractions import Fraction\n"
+     "def price(x: Fraction) -> Decimal: ...\ntotal: Decimal\n"),
+    ("def path(p):\n  return p\nroot = path('.')\n",
+     "import os\nfrom collections import OrderedDict\n"
+     "def path(p: os.PathLike) -> OrderedDict: ...\nroot: OrderedDict\n"),
+    # triple-quoted strings with trailing blanks inside rewritten lines
+    ("doc = " + TQ + "first   \nsecond\t\n" + TQ + "\ndef g(a, b=" + TQ +
+     "x  \n y" + TQ + "):\n  return a\nclass T:\n  s = " + TS + "k   \n" + TS +
+     "\n  def m(self, z=" + TS + "p \nq" + TS + "):\n    return z\n",
+     "doc: str\ndef g(a: int, b: str = ...) -> int: ...\nclass T:\n  s: str\n"
+     "  def m(self, z: str = ...) -> str: ...\n"),
     # stub declarations that carry a value
     ("import attr\nowner = attr.ib(default=None)\nclass R:\n  f = make()\n"
      "  g = 1\n",
@@ -369,6 +408,12 @@ FIXED = [
 
 
 def replay(ctx, case):
+  if case.get("history"):
+    canary(ctx, first=True)
+    for src, stub in FIXED:
+      check_pair(ctx, src, stub, "fixed", ["function", "class"])
+      canary(ctx)
+    return
   check_pair(ctx, case["src"], case["stub"], "replay", ["function", "class"])
 
 
